@@ -87,13 +87,15 @@ def run(ctx, res):
     for d in (1, 2, 8, 33, 64):
         cases.append(("deep-nesting", "".join(f"BEGIN:X{i}\r\n" for i in range(d)) + "".join(f"END:X{i}\r\n" for i in reversed(range(d)))))
         cases.append(("unbalanced", "BEGIN:VEVENT\r\n" * d + "END:VEVENT\r\n" * (d // 2)))
-    for tz in ("Europe", "/", "a,b", "", "../../etc/passwd", "UTC", "Europe/Berlin/x", "\x00", "é"):
+    for tz in ("Europe", "/", "a,b", "", "../../etc/passwd", "UTC", "Europe/Berlin/x", "\x00", "é", "America", "Europe/", "x" * 300,
+               "a/" * 3000 + "a", "Europe/Berlin,Europe/Vienna", '"Europe/Berlin","UTC"'):
         cases.append(("hostile-tzid", f"BEGIN:VEVENT\r\nDTSTART;TZID={tz}:20200102T100000\r\nEND:VEVENT\r\n"))
     corpus = ["BEGIN:VEVENT\r\nTZID:x\r\nEND:VTIMEZONE\r\n", "BEGIN:VEVENT\r\nDTSTART;TZID=Europe:20200102T100000\r\nEND:VEVENT\r\n",
               "BEGIN:VEVENT\r\nDTSTART;TZID=a,b:20200102T100000\r\nEND:VEVENT\r\n",
               "BEGIN:VFREEBUSY\r\nFREEBUSY:20200101/20200102T000000Z\r\nEND:VFREEBUSY\r\n",
               "BEGIN:VTIMEZONE\r\nTZID:Q\r\nBEGIN:STANDARD\r\nDTSTART:19700101T000000\r\nTZOFFSETFROM:+0100\r\nTZOFFSETTO:+0100\r\nRRULE:BYDAY=1SU\r\nEND:STANDARD\r\nEND:VTIMEZONE\r\n",
-              "BEGIN:VEVENT\r\nDURATION:P1000000000D\r\nEND:VEVENT\r\n", "BEGIN:VEVENT\r\nRRULE:FREQ=YEARLY;BYMONTH=\r\nEND:VEVENT\r\n"]
+              "BEGIN:VEVENT\r\nDURATION:P1000000000D\r\nEND:VEVENT\r\n", "BEGIN:VEVENT\r\nDTSTART;TZID=Europe/Berlin:00010101T000000\r\nEND:VEVENT\r\n",
+              "BEGIN:VEVENT\r\nRDATE;TZID=America/New_York:99991231T235959,20200101T000000\r\nEND:VEVENT\r\n", "BEGIN:VEVENT\r\nRRULE:FREQ=YEARLY;BYMONTH=\r\nEND:VEVENT\r\n"]
     cases = [("corpus", c) for c in corpus] + cases
     res.rule = ("malformed inputs: structure-aware mutations (1-3 of: delete/duplicate/swap line, insert token, truncate, splice token "
                 "line, cut, hostile TZID parameter, stray BEGIN/END) of every fixture and of generated calendars, token soup, nesting up "
